@@ -14,6 +14,7 @@ import TypedpyModel.Lemmas.Formats
 import TypedpyModel.Sem.Decimal
 import TypedpyModel.Sem.EntryD
 import TypedpyModel.Lemmas.BridgeWf
+import TypedpyModel.Lemmas.Idempotent
 namespace Typedpy.C01
 open Typedpy
 
@@ -432,6 +433,43 @@ theorem bridge_instantiate_sound_uncond (O : Oracles) (c : ClassDef) (ord : List
     (h : instantiateOrd O c ord kw = .ok x) :
     ∃ x0, x = addConstants c.constants x0 ∧ wellFormed O (c.toStruct ord [c.name]) x0 = true :=
   bridge_instantiate_sound O c ord kw x (bridge_wfDecl c ord [c.name] hk hreq hm) h
+
+/-! ### what a field stores validates again, unchanged
+
+Every re-validating entry point (deepcopy, shallow_clone_with_overrides, from_other_class, cast_to,
+serialize-then-deserialize) feeds stored values back into the field.  On the fragment `idemFrag` (Lemmas/Idempotent.lean:
+every declaration kind except Set / Map / AnyOf / inline StructureReference - for these it is not proved, not refuted)
+the stored value is accepted again and stored unchanged. -/
+
+theorem validate_idempotent_partial (O : Oracles) (f : FieldDecl) (v w : PyVal) (hf : idemFrag f = true)
+    (h : validate O f v = .ok w) : validate O f w = .ok w := by
+  have hs := validate_spec O f v
+  cases ha : admits O f v
+  · rcases hs.2 ha with ⟨e, he, _⟩
+    rw [he] at h; cases h
+  · have := hs.1 ha
+    rw [this] at h
+    cases h
+    have st := norm_stable O f v hf ha
+    have := (validate_spec O f (norm O f v)).1 st.1
+    rw [st.2] at this
+    exact this
+
+/-- non-vacuity: a nested positional / homogeneous declaration with conversions at the leaves (int → float,
+    'True' → True, a member name → the member) is in the fragment; its stored value validates again unchanged -/
+theorem idempotent_example :
+    let O : Oracles := { reMatch := fun _ _ => true }
+    let f : FieldDecl := .seqOf .list (.tuplePos [.float { min := some ⟨0, 1⟩ }, .boolean, .enumCls "Color" ["RED", "BLUE"],
+                                          .oneOf [.boolean, .enumLit [.int 1, .int 3]]] false) { uniq := true }
+    idemFrag f = true
+    ∧ (match validate O f (.list [.tuple [.int 2, .str "True", .str "RED", .str "True"]]) with
+        | .ok w => (match validate O f w with
+                    | .ok w' => (match w, w' with
+                                  | .list [.tuple [.float a, .bool true, .enumv _ _, .str _]], .list [.tuple [.float b, .bool true, .enumv _ _, .str _]] => a.num == b.num
+                                  | _, _ => false)
+                    | .error _ => false)
+        | .error _ => false) = true := by
+  decide
 
 /-! ### OneOf / AllOf keep the value as it was given (fixed in /repo 89fd84a)
 
